@@ -10,9 +10,10 @@ BIN=./target/release/simcheck
 case "$mode" in
  determinism)
   N="${1:-2000}"; shift || true
-  ids=("$@"); if [ ${#ids[@]} -eq 0 ]; then mapfile -t ids < <($BIN list); fi
+  ids=("$@"); if [ ${#ids[@]} -eq 0 ]; then mapfile -t ids < <($BIN list; echo C19); fi
   tmp=$(mktemp -d /dev/shm/simdet.XXXXXX); rc=0
   for id in "${ids[@]}"; do
+    BIN=./target/release/simcheck; [ "$id" = C19 ] && BIN=./target-hooks/release/simcheck
     $BIN fingerprint "$id" quick 0 "$N" 0 1 "$tmp/a.txt" >/dev/null 2>&1 &
     for k in $(seq 0 15); do $BIN fingerprint "$id" quick 0 "$N" "$k" 16 "$tmp/b.$k" >/dev/null 2>&1 & done
     wait
